@@ -18,6 +18,7 @@ chunking of the byte stream is decided by net.chunker(data) -> list of chunks.
 Factories: sim.install_factories() replaces prudp.connect_transport_socket / prudp.udp.bind /
 prudp.serve_transport_socket so that prudp.connect/serve, rmc.connect/serve, backend.connect work unchanged.
 """
+import os
 import asyncio, contextlib, heapq, random, types
 
 import anyio
@@ -33,11 +34,17 @@ class VLoop(asyncio.SelectorEventLoop):
         super().__init__()
         self._vtime = 0.0
         self.idle_hook = None     # called when the loop is about to block with no timers (deadlock detection)
+        self.turns = 0
+        self.max_turns = None     # bound on loop iterations: a session that never ends (a waiter nobody will wake while keep-alive
+                                  # timers go on for ever) raises SimTimeout instead of spinning; deterministic, not wall-clock
 
     def time(self):
         return self._vtime
 
     def _run_once(self):
+        self.turns += 1
+        if self.max_turns is not None and self.turns > self.max_turns:
+            raise SimTimeout("the simulated session did not end within %d loop turns (virtual time %.3f s)" % (self.max_turns, self._vtime))
         sched = self._scheduled
         while sched and sched[0]._cancelled:
             h = heapq.heappop(sched)
@@ -56,6 +63,10 @@ class VLoop(asyncio.SelectorEventLoop):
 
 
 class Deadlock(Exception):
+    pass
+
+
+class SimTimeout(Exception):
     pass
 
 
@@ -358,6 +369,8 @@ class Sim:
         return self
 
     def __exit__(self, *a):
+        if os.environ.get("NX_TURNS_LOG"):
+            with open(os.environ["NX_TURNS_LOG"], "a") as f: f.write("%d %.1f\n" % (self.loop.turns, self.loop._vtime))
         for mod, name, old in reversed(self._saved):
             setattr(mod, name, old)
         self._saved = []
